@@ -96,9 +96,20 @@ DeepConc ==
         /\ nbad' = nbad + (IF ok THEN 0 ELSE 1)
   /\ l' = l + 1
 
+\* the same query on the same tree R times (compiled once, and compiled afresh): ONE value, bit for bit
+\* {"ev":"repeat","n":N,"runs":R,"queries":Q,"distinct":[d1..dQ]}   (di = number of different results of query i)
+Repeat ==
+  /\ l <= Len(Trace) /\ Trace[l].ev = "repeat"
+  /\ LET ev == Trace[l]
+         bad == {q \in 1..ev.queries : ev.distinct[q] # 1}
+         ok == Len(ev.distinct) = ev.queries /\ bad = {}
+     IN /\ (~ok => PrintT(ToJson([verdict |-> "repeat", l |-> l, queries |-> bad, want |-> [distinct |-> 1]])))
+        /\ nbad' = nbad + (IF ok THEN 0 ELSE 1)
+  /\ l' = l + 1
+
 Done ==
   /\ l = Len(Trace) + 1
   /\ PrintT(ToJson([verdict |-> "done", lines |-> Len(Trace), bad |-> nbad]))
   /\ l' = l + 1 /\ UNCHANGED nbad
-Next == ScaleDoc \/ DeepJson \/ DeepXml \/ DeepConc \/ Done
+Next == ScaleDoc \/ DeepJson \/ DeepXml \/ DeepConc \/ Repeat \/ Done
 =============================================================================
